@@ -52,7 +52,8 @@ ERRNOS = [errno.EACCES, errno.EPERM, errno.EIO, errno.ENOMEM, errno.ELOOP,
           errno.EOVERFLOW]
 
 OPS = ['verify', 'verify-k', 'cli-verify', 'verify_path', 'update',
-       'cli-update']
+       'cli-update', 'verify-mtime', 'update-mtime']
+FAR_FUTURE = 4_000_000_000
 
 
 @st.composite
@@ -97,7 +98,7 @@ def case(draw):
                               unique=True))}
     if extra == 'unregistered':
         d['unregistered'] = lay['manifests'][-1]['p']
-        d['ops'] = ['update', 'cli-update']
+        d['ops'] = ['update', 'cli-update', 'update-mtime']
     return d
 
 
@@ -144,6 +145,14 @@ def run_op(root, op, desc):
             calls.append(err)
             return False
         return gem.verify_lib(root, fail_handler=h), calls
+    if op == 'verify-mtime':
+        # every file is "not newer": checksums may be skipped, errors not
+        return gem.verify_lib(root, last_mtime=FAR_FUTURE), None
+    if op == 'update-mtime':
+        o = {'hashes': desc['hashes'], 'sort': None, 'force': False,
+             'target': '', 'watermark': None, 'format': None, 'api': 'lib'}
+        return updgen.run_update(root, o, save=False,
+                                 last_mtime=FAR_FUTURE), None
     if op == 'cli-verify':
         oc, records, _ = gem.cli(['verify', root])
         return oc, [r.msg for r in records
@@ -165,7 +174,7 @@ def run_op(root, op, desc):
 def succeeded(op, oc):
     if oc.kind != 'return':
         return False
-    if op in ('verify', 'verify-k'):
+    if op in ('verify', 'verify-k', 'verify-mtime'):
         return oc.value is True
     if op == 'cli-verify':
         return oc.value == 0
@@ -198,9 +207,11 @@ def absent_reports(root, op, oc, extra):
     return bad
 
 
-def one_run(root, op, desc, classes, nth=None, err=None, only=None):
+def one_run(root, op, desc, classes, nth=None, err=None, only=None,
+            base_leak=0):
     """Run @op under a fault.  Returns (Result or None, fired)."""
-    before = fsnap.snapshot(root) if op in ('update', 'cli-update') else None
+    before = fsnap.snapshot(root) if op in ('update', 'cli-update',
+                                            'update-mtime') else None
     fds0 = open_fds_under(root)
     with shim.FaultInjector(root, nth=nth, err=err, only=only) as fi:
         oc, extra = run_op(root, op, desc)
@@ -234,9 +245,12 @@ def one_run(root, op, desc, classes, nth=None, err=None, only=None):
                 f'{where}: the failed update wrote to the tree: {d!r}',
                 sig=f'update-wrote-despite-fault:{op}', classes=classes), True
     fds1 = open_fds_under(root)
-    if fds1 > fds0:
+    if fds1 - fds0 > base_leak:
+        # (descriptors that the same operation leaves open without any
+        # fault are not attributed to the fault)
         return violation(
-            f'{where}: {fds1 - fds0} descriptor(s) under the tree left open',
+            f'{where}: {fds1 - fds0} descriptor(s) under the tree left open '
+            f'({base_leak} without the fault)',
             sig=f'fd-leak:{op}', classes=classes), True
     return None, True
 
@@ -250,6 +264,7 @@ def run_case(desc):
     root = harness.fresh_dir('c06')
     fired_here = 0
     runs_here = [0]
+    leaks = {}
     try:
         build(desc, root)
         classes = list(desc['tags'])
@@ -288,8 +303,10 @@ def run_case(desc):
             r.subcases_nontrivial = n_extra
             return r
         for op in desc['ops']:
+            f0 = open_fds_under(root)
             with shim.FaultInjector(root) as counter:
                 base_oc, _ = run_op(root, op, desc)
+            leaks[op] = max(0, open_fds_under(root) - f0)
             if op == 'cli-update':
                 # restore: the CLI update may have rewritten Manifests
                 harness.rmtree(root)
@@ -305,7 +322,8 @@ def run_case(desc):
                         harness.rmtree(root)
                         os.mkdir(root)
                         build(desc, root)
-                    v, fired = one_run(root, op, desc, classes, nth=i, err=e)
+                    v, fired = one_run(root, op, desc, classes, nth=i, err=e,
+                                       base_leak=leaks[op])
                     runs_here[0] += 1
                     if fired:
                         fired_here += 1
@@ -322,10 +340,17 @@ def run_case(desc):
         if desc.get('unregistered'):
             targets = [desc['unregistered']]
         for t in targets:
-            for op in (('update',) if desc.get('unregistered') else
-                       ('verify', 'verify-k', 'cli-verify', 'update')):
+            for op in (('update', 'update-mtime')
+                       if desc.get('unregistered') else
+                       ('verify', 'verify-k', 'cli-verify', 'update',
+                        'verify-mtime', 'update-mtime')):
+                if op not in leaks:
+                    f0 = open_fds_under(root)
+                    run_op(root, op, desc)
+                    leaks[op] = max(0, open_fds_under(root) - f0)
                 v, fired = one_run(root, op, desc, classes,
-                                   err=errno.EACCES, only=t)
+                                   err=errno.EACCES, only=t,
+                                   base_leak=leaks[op])
                 runs_here[0] += 1
                 if fired:
                     fired_here += 1
@@ -358,7 +383,7 @@ def extra_evidence(results):
 
 PARTS = [
     Part('faults', run_case, strategy=strat, prepare=prepare,
-         examples={'quick': 2000, 'thorough': 12000},
+         examples={'quick': 1400, 'thorough': 12000},
          budget={'quick': 70, 'thorough': 1200}),
 ]
 
